@@ -86,8 +86,32 @@ class SimLoop(asyncio.base_events.BaseEventLoop):
 
     async def create_connection(self, protocol_factory, host=None, port=None, *, sock=None, **kw):
         if sock is None:
-            raise NotImplementedError("SimLoop only supports create_connection(sock=...)")
+            # create_connection(host, port) with an address literal: what the real loop does without the name lookup -
+            # a socket of the literal's family, a non-blocking connect, then the transport
+            import socket as _s
+
+            if host is None or port is None:
+                raise ValueError("host and port was not specified and no sock specified")
+            fam = _s.AF_INET6 if ":" in host else _s.AF_INET
+            sock = self.net.new_socket(fam, _s.SOCK_STREAM, _s.IPPROTO_TCP)
+            try:
+                await self.net.sock_connect(sock, (host, port, 0, 0) if fam == _s.AF_INET6 else (host, port))
+            except BaseException:
+                sock.close()
+                raise
         return await self.net.create_connection(self, protocol_factory, sock)
+
+    async def getaddrinfo(self, host, port, *, family=0, type=0, proto=0, flags=0):
+        """address literals only (the library never resolves names itself): answered without a thread pool or the network"""
+        import socket as _s
+
+        if isinstance(host, bytes):
+            host = host.decode()
+        fam = _s.AF_INET6 if ":" in host else _s.AF_INET
+        if family not in (0, fam):
+            raise _s.gaierror(_s.EAI_ADDRFAMILY, "Address family for hostname not supported")
+        addr = (host, port, 0, 0) if fam == _s.AF_INET6 else (host, port)
+        return [(fam, type or _s.SOCK_STREAM, proto or _s.IPPROTO_TCP, "", addr)]
 
     # -- helpers -----------------------------------------------------------------
     def run_sim(self, coro):
